@@ -37,6 +37,8 @@ EXPLANATION = "each operation of the discovery part is proved to keep the monito
 
 
 class Recorder(SD.ClientServiceListener):
+    VC_MODEL = True  # environment model (write-only recorder): outside the frames of loop contracts
+
     def __init__(self, name, log):
         self.name = name
         self.log = log
